@@ -379,6 +379,48 @@ func runC07(c *Ctx) {
 			recv := paramOf(searchFi, 0)
 			ok, why := true, ""
 			n := 0
+			// the search written out as the bisection of sort.Search
+			if bis, _ := lowerBoundBisection(ps); bis != nil {
+				good := bis.N.Op == "builtin" && bis.N.Sym == "len" && isFieldLoad(bis.N.Args[0], sliceF, recv)
+				whyB := "does not search the whole length of the slice"
+				probeIsLess := func(cd *Cond) (bool, bool) { // (is less(slice[mid], value), polarity)
+					if cd == nil {
+						return false, false
+					}
+					t, pol := stripNot(cd.T, cd.Pol)
+					okc := t.Op == "call" && t.Sym == "dyn" && len(t.Args) == 3 && isFieldLoad(t.Args[0], lessF, recv) &&
+						t.Args[1].Op == "load" && t.Args[1].Args[0].Op == "iaddr" && isFieldLoad(t.Args[1].Args[0].Args[0], sliceF, recv) &&
+						stripConv(t.Args[1].Args[0].Args[1]).Key() == bis.Mid.Key() && isParam(t.Args[2], 1)
+					return okc, pol
+				}
+				if good {
+					upOK, upPol := probeIsLess(bis.probeCond(bis.Up))
+					dnOK, dnPol := probeIsLess(bis.probeCond(bis.Down))
+					if !(upOK && upPol && dnOK && !dnPol) {
+						good, whyB = false, "the bisection does not move lo past the probe exactly when less(slice[mid], value)"
+					}
+				}
+				// nothing but the guard for an uninitialised comparator may precede it
+				for _, p := range ps {
+					if p.End == EndPanic {
+						continue
+					}
+					for i := range p.Events {
+						e := &p.Events[i]
+						if e.Kind == "call" && e.Name != "builtin.len" && !(e.Name == "dyn" && isFieldLoad(e.Callee, lessF, recv)) {
+							good, whyB = false, "unexpected call "+e.Name
+						}
+						if e.Kind == "store" && e.Addr.Op != "alloc" {
+							good, whyB = false, "the search writes memory"
+						}
+					}
+				}
+				o := R.Decide(good, "lower-bound", searchFi.Name, "predicate", c.pos(searchFi), "hand-written bisection of sort.Search over len(slice) with the probe less(slice[mid], value): the first position not less than the value", whyB)
+				if !good {
+					o.Breaks = "Index is not the FIRST position of the value / Add's position is wrong among duplicates"
+				}
+				ps = nil // decided above
+			}
 			for _, p := range ps {
 				if p.End == EndPanic {
 					continue
@@ -416,12 +458,14 @@ func runC07(c *Ctx) {
 					ok = false
 				}
 			}
-			if n == 0 {
-				ok, why = false, "no returning path"
-			}
-			o := R.Decide(ok, "lower-bound", searchFi.Name, "predicate", c.pos(searchFi), "sort.Search(len(slice), !less(slice[i], value))", why)
-			if !ok {
-				o.Breaks = "Index is not the FIRST position of the value / Add's position is wrong among duplicates"
+			if ps != nil {
+				if n == 0 {
+					ok, why = false, "no returning path"
+				}
+				o := R.Decide(ok, "lower-bound", searchFi.Name, "predicate", c.pos(searchFi), "sort.Search(len(slice), !less(slice[i], value))", why)
+				if !ok {
+					o.Breaks = "Index is not the FIRST position of the value / Add's position is wrong among duplicates"
+				}
 			}
 		}
 	}
